@@ -59,7 +59,9 @@ func errPropagates(c *Ctx, fn *ssa.Function, match func(name string, call *ssa.C
 				okRes[i] = Val{N: NNon}
 			}
 		}
-		return []map[int]Val{okRes, {ei: {N: NNon, Class: ClsOther, Sym: "failed:" + name}}}
+		// the failure is an error of unknown class: type switches and assertions on it can go either way
+		// ("if _, ok := err.(Interrupted); ok { return nil }" must be explored)
+		return []map[int]Val{okRes, {ei: {N: NNon, Sym: "failed:" + name}}}
 	}
 	h.Instr = func(st *State, ins ssa.Instruction) {}
 	h.Branch = func(st *State, iff *ssa.If, taken bool) {}
